@@ -49,6 +49,12 @@ def requests(draw, size: int, unit: int, count: int = 6, max_len: int = 3 << 20,
         reqs.append([off, ln])
     if size <= whole_limit and draw(st.booleans()):
         reqs.append([0, size])
+    if size > (34 << 20) and draw(st.integers(0, 49)) == 0:
+        # once in a while one very long request (tens of MiB in a single call): per-call caps, shared scratch buffers
+        ln = draw(st.sampled_from([(32 << 20) + 1, (33 << 20) + 4097, 70 << 20]))
+        off = draw(st.sampled_from([0, ALIGN + 512, max(0, size - ln - 512)] + [max(0, p - 4096) for p in list(points)[:2]]))
+        off = max(0, min(off, size - 1))
+        reqs.append([off, min(ln, size - off)])
     return reqs
 
 
